@@ -586,6 +586,25 @@ def check_C04(chk):
                 chk.violation(sig0 or "order-dependent", "test %s credited %s in order %s but %s in order %s" % (
                     name, delta, order, seen[key][0], seen[key][1]), replay_of(root, rep, mode, {"stdout": run.stdout[-2000:]}))
             seen.setdefault(key, (delta, order))
+        # what the reporter's own output says about each test must not depend on the others either
+        native = {}
+        try:
+            if rep == "xml":
+                for fn, x in L.parse_xml_files(run.files).items():
+                    for nm, cls, nf, ne, ns in x["cases"]:
+                        native[nm] = ("xml testcase: failures, errors, skipped", (nf, ne, ns))
+            elif rep == "cute":
+                pc = L.parse_cute(run.stdout)
+                for nm in order:
+                    native[nm] = ("cute lines: #failure, #success, #error", (pc["failures"].count(nm), len(pc["status"].get(nm, [])), pc["errors"].count(nm)))
+        except Exception:
+            native = {}
+        for name, (what, val) in native.items():
+            key = (g, name, rep)
+            if key in seen and seen[key][0] != val and not cs:
+                chk.violation("report-order-dependent", "test %s: %s = %s in registration order %s but %s in order %s" % (
+                    name, what, val, order, seen[key][0], seen[key][1]), replay_of(root, rep, mode, {"stdout": run.stdout[-2000:]}))
+            seen.setdefault(key, (val, order))
         for name, msg in L.log_tmsg(run):
             key = (g, name, "msg")
             if key in seen and seen[key][0] != msg:
@@ -681,11 +700,21 @@ def check_C13(chk):
         runs, mrs = run_cases(drv, cases)
         correspondence(chk, cases, runs, mrs)
         base = None
+        cute_base = None
         for (r_, rep, mode), run, mr in zip(cases, runs, mrs):
             if run.timeout:
                 chk.violation("nontermination", "run did not terminate", replay_of(root, rep, mode))
                 continue
             chk.count("premises:" + ("inside" if mr.in_premises else "outside"))
+            if rep == "cute" and mr.in_premises:
+                # the per-test lines of the CUTE reporter (#failure once per failing test, #success) are messages too
+                pc = L.parse_cute(run.stdout)
+                lines_ = (sorted(pc["failures"]), sorted(pc["status"]), sorted(pc["errors"]))
+                if cute_base is None:
+                    cute_base = (mode, lines_)
+                elif cute_base[1] != lines_:
+                    chk.violation("messages-differ-cute", "CUTE reporter: #failure/#success/#error lines %s in mode %s but %s in mode %s" % (
+                        cute_base[1], cute_base[0], lines_, mode), replay_of(root, rep, mode, {"stdout": run.stdout[-2500:]}))
             td = dict(L.log_tdone(run))
             msgs = messages_by_test(run) if rep == "text" else None
             for name, delta in td.items():
